@@ -345,6 +345,62 @@ func (r *Rec) Observer() ro.Observer[int] {
 	)
 }
 
+// rawObserver is a user-implemented ro.Observer: it records everything it is handed and protects
+// itself against nothing (an observer built with ro.NewObserver drops notifications after its own
+// terminal, which would hide a subscriber or operator that delivers them).
+type rawObserver struct{ r *Rec }
+
+func (o rawObserver) Next(v int) { o.NextWithContext(context.Background(), v) }
+func (o rawObserver) NextWithContext(ctx context.Context, v int) {
+	r := o.r
+	idx := r.enter('N', v, nil, ctx)
+	defer r.exit(idx)
+	if r.YieldInside {
+		r.env.Yield()
+	}
+	if r.OnNextHook != nil {
+		r.OnNextHook(r, v)
+	}
+}
+func (o rawObserver) Error(err error) { o.ErrorWithContext(context.Background(), err) }
+func (o rawObserver) ErrorWithContext(ctx context.Context, err error) {
+	r := o.r
+	idx := r.enter('E', 0, err, ctx)
+	defer r.exit(idx)
+	if r.YieldInside {
+		r.env.Yield()
+	}
+	if r.OnTermHook != nil {
+		r.OnTermHook(r, 'E')
+	}
+}
+func (o rawObserver) Complete() { o.CompleteWithContext(context.Background()) }
+func (o rawObserver) CompleteWithContext(ctx context.Context) {
+	r := o.r
+	idx := r.enter('C', 0, nil, ctx)
+	defer r.exit(idx)
+	if r.YieldInside {
+		r.env.Yield()
+	}
+	if r.OnTermHook != nil {
+		r.OnTermHook(r, 'C')
+	}
+}
+func (o rawObserver) IsClosed() bool    { return o.r.Terminal() != 0 }
+func (o rawObserver) HasThrown() bool   { return o.r.Terminal() == 'E' }
+func (o rawObserver) IsCompleted() bool { return o.r.Terminal() == 'C' }
+
+// RawObserver returns a user-implemented observer (no self-protection) feeding this recorder.
+func (r *Rec) RawObserver() ro.Observer[int] { return rawObserver{r} }
+
+// Obs returns the raw observer when the scenario asks for it (Ints["raw"]=1), else the ro.NewObserver one.
+func (r *Rec) Obs() ro.Observer[int] {
+	if r.env.Sc.Int("raw", 0) == 1 {
+		return r.RawObserver()
+	}
+	return r.Observer()
+}
+
 // Trace renders the recorded sequence, e.g. "N1 N2 C".
 func (r *Rec) Trace() string {
 	parts := make([]string, len(r.Events))
